@@ -130,7 +130,6 @@ fn compute_inner(tree: &mut impl LayoutBlockContainer, node_id: NodeId, inputs: 
     let style = tree.get_block_container_style(node_id);
     let raw_padding = style.padding();
     let raw_border = style.border();
-    let raw_margin = style.margin();
     let aspect_ratio = style.aspect_ratio();
     let padding = raw_padding.resolve_or_zero(parent_size.width, |val, basis| tree.calc(val, basis));
     let border = raw_border.resolve_or_zero(parent_size.width, |val, basis| tree.calc(val, basis));
@@ -286,15 +285,15 @@ fn compute_inner(tree: &mut impl LayoutBlockContainer, node_id: NodeId, inputs: 
         top_margin: if own_margins_collapse_with_children.start {
             first_child_top_margin_set
         } else {
-            let margin_top = raw_margin.top.resolve_or_zero(parent_size.width, |val, basis| tree.calc(val, basis));
-            CollapsibleMarginSet::from_margin(margin_top)
+            // The node's own margin is not included: the parent collapses it into this set itself (as it does for a leaf's
+            // ZERO set). Resolving it here against `parent_size`, which is not part of the cache key, let a cached output
+            // carry a percentage margin resolved against the size of an earlier parent query.
+            CollapsibleMarginSet::ZERO
         },
         bottom_margin: if own_margins_collapse_with_children.end {
             last_child_bottom_margin_set
         } else {
-            let margin_bottom =
-                raw_margin.bottom.resolve_or_zero(parent_size.width, |val, basis| tree.calc(val, basis));
-            CollapsibleMarginSet::from_margin(margin_bottom)
+            CollapsibleMarginSet::ZERO
         },
         margins_can_collapse_through: can_be_collapsed_through,
     }
